@@ -65,6 +65,16 @@ func (ex *Exec) tryApplyLemma(st *State, use *SExpr, extra map[string]*Val) {
 // applyLemma assumes an instance of a lemma: use L(args)
 func (ex *Exec) applyLemma(st *State, use *SExpr, extra map[string]*Val) {
 	env := ex.specEnv(st, extra)
+	defer func() {
+		// a hint that mentions $i / $idx / $j at a point where that index does not exist (a `ret use` reached
+		// after the loop) is simply not instantiated there
+		if r := recover(); r != nil {
+			if s, ok := r.(string); ok && strings.HasSuffix(s, "is not defined at this point") {
+				return
+			}
+			panic(r)
+		}
+	}()
 	ex.assume(st, ex.w.lemmaInstance(use, env))
 }
 
